@@ -11,9 +11,22 @@ ops:  t+ <ns>                                               => <state>
       dump                                                  => n=<visited buckets> <i:sum/succ/fail/drop of the non-empty ones>
 <state> = h=<accepts>/<total>/<failingBuckets>/<workingBuckets> w=<Σsum>/<Σsucc>/<Σfail>/<Σdrop> lp=<lastPass ns>
 The draw is u = m / 2^53 (the harness scripts proba's source with Int63() = m·2^10, so Float64() is exactly u).
+Request outcomes: ok | erra | erru | brk (the request's own ErrServiceUnavailable) | wbrk (an error wrapping it) | panic;
+`ret=` names the request's error when it came back by identity (nil/erra/erru/brk/wbrk), else unavail/fbres/ctx/other.
+
+      par g=<G> k=<K> fp=<fail%> mix=<seed> u=<m>            => calls=<n> succ=<a> fail=<b> rej=<c> bad=<anomalies> <state>
+          (G goroutines x K calls on the one breaker, clock frozen; split taken from the observation, verdict schedule-free)
+      site <site> <class> p=<0|1> sf=<0|1> ua=<0|1> ig=<0|1> ctx=<none|live|done> u=<m>
+                                                            => req=<n> ret=<same|unavail|stunavail|http503|ctx|other|none> panic=<0|1> drew=<0|1> <state>
+          (one request through the real rest handler / zrpc interceptor / redis hook / sqlx connection; Sites.lean)
+cfg kind=named: one breaker per name (breakers.go); every op but `t+` ends with name=<x> and its observation with
+      oth=<Σ sum of the other names' windows>; `t+` prints `<name> <state> | …` for the names created so far.
+cfg kind=rw size=<n> iv=<d>: a bare RollingWindow; ops t+ <ns> | add <succ|fail|drop> => n=<visited> w=<Σ>; dump.
+cfg kind=race: `races => total=<n> known-errorwindow=<k> unknown=<u> [first=<frames>]`, the race detector's verdict.
 -/
 import GoZero.Base.Trace
 import GoZero.C01.Spec
+import GoZero.C01.Sites
 namespace GoZero.C01
 open GoZero
 
@@ -30,15 +43,18 @@ def parseOutcome : String → Option Outcome
   | "ok" => some .ok
   | "erra" => some .errA
   | "erru" => some .errU
+  | "brk" => some .brk
+  | "wbrk" => some .wbrk
   | "panic" => some .panic
   | _ => none
 
 def retStr : Ret → String
-  | .nil => "nil" | .errA => "erra" | .errU => "erru" | .unavailable => "unavail"
+  | .nil => "nil" | .errA => "erra" | .errU => "erru" | .brk => "brk" | .wbrk => "wbrk" | .unavailable => "unavail"
   | .fallbackResult => "fbres" | .ctxErr => "ctx"
 
 def parseRet : String → Option Ret
-  | "nil" => some .nil | "erra" => some .errA | "erru" => some .errU | "unavail" => some .unavailable
+  | "nil" => some .nil | "erra" => some .errA | "erru" => some .errU | "brk" => some .brk | "wbrk" => some .wbrk
+  | "unavail" => some .unavailable
   | "fbres" => some .fallbackResult | "ctx" => some .ctxErr | _ => none
 
 inductive Ctx | none | live | done deriving DecidableEq
@@ -150,6 +166,216 @@ def monitorVerdict (r : Report) (sec line : Nat) (st : DState) (u : Rat) (reject
     else if dn = 0 ∧ st.mh.accepts > 0 ∧ implLp = st.now then ghost := some st.now
   return (r, ghost)
 
+/-! ## call sites: parsing -/
+
+def parseSite : String → Option Site
+  | "rest" => some .rest | "zclient" => some .zrpcClient | "zsunary" => some .zrpcServerUnary
+  | "zsstream" => some .zrpcServerStream | "rproc" => some .redisProcess | "rpipe" => some .redisPipeline
+  | "sqlexec" => some .sqlx | "sqlprep" => some .sqlx | "sqltx" => some .sqlx | "sqlquery" => some .sqlxQuery
+  | _ => none
+
+/-- classes of the harness; a `w…`/`gw…` class is the same error wrapped with `%w` -/
+def parseErrClass (c : String) : Option ErrClass :=
+  match c with
+  | "nil" => some .none
+  | "deadline" | "wdeadline" => some .ctxDeadline
+  | "canceled" | "wcanceled" => some .ctxCanceled
+  | "brkopen" | "wbrkopen" => some .brkOpen
+  | "rnil" | "wrnil" => some .redisNil
+  | "norows" | "wnorows" => some .sqlNoRows
+  | "txdone" => some .sqlTxDone
+  | "accerr" | "waccerr" => some .sqlAcceptable
+  | "custom" => some .custom
+  | "other" => some .other
+  | _ =>
+    if c.startsWith "gw" then (c.drop 2).toNat?.map .grpc
+    else if c.startsWith "g" then (c.drop 1).toNat?.map .grpc
+    else none
+
+def parseSiteReq (s : Site) (cls p sf ua : String) : Option SiteReq :=
+  if s = .rest then
+    if cls.startsWith "h" then
+      (cls.drop 1).toNat?.map fun n => { code := if n = 0 then 200 else n, panics := p = "1" }
+    else none
+  else
+    (parseErrClass cls).map fun e => { err := e, panics := p = "1", scanFailed := sf = "1", userAccepts := ua = "1" }
+
+def siteRetStr : SiteRet → String
+  | .same => "same" | .unavailable => "unavail" | .statusUnavailable => "stunavail" | .http503 => "http503" | .ctxErr => "ctx"
+
+def siteCallStr (evs : List SEv) (drew : Bool) : String :=
+  let panicked := evs.contains .repanicked
+  let ret := if panicked then "none" else
+    (evs.findSome? fun | .returned r => some (siteRetStr r) | _ => none).getD "none"
+  s!"req={evs.count .ranReq} ret={ret} panic={b01 panicked} drew={b01 drew}"
+
+/-! ## one call through `accept()` (shared by `do`, `allow` and `site` ops) -/
+
+structure CallSpec where
+  /-- the model's observation of the call itself (without the state), given the path through `accept()` -/
+  modelStr : Path → String
+  /-- what the model records -/
+  marks : Path → List Mark
+  /-- is the implementation's observation a rejection -/
+  implRejected : List String → Bool
+  /-- exact-accounting clause of the property on the implementation's observation: a message if violated -/
+  check : (rejected : Bool) → (obs : List String) → (delta : Option Bucket) → Option String
+  /-- what the call should have recorded (for the monitor's own log); `none` = nothing (admitted `Allow`) -/
+  expected : (rejected : Bool) → Option Mark
+  cover : Path → String
+
+def runCall (sec : Nat) (r : Report) (l : Line) (st : DState) (u : Rat) (cs : CallSpec) : Report × DState × Path := Id.run do
+  let mut r := r
+  let impl := joinSp l.obs
+  let (cands, c1b, c3b) := candidates st.b st.now u
+  let run (d : Bool × Bool) : String × Breaker × Path :=
+    let p := acceptPath st.b.lastPass st.now d.1 d.2
+    let b2 := (st.b.applyPath st.now p).applyMarks st.now (cs.marks p)
+    (cs.modelStr p ++ " " ++ stateStr b2 st.now, b2, p)
+  let results := cands.map run
+  let chosen := match results.find? (·.1 = impl) with
+    | some x => x
+    | none => results.headD ("", st.b, .free)
+  if chosen.1 ≠ impl then r := r.mismatch sec l.idx chosen.1 impl
+  let p := chosen.2.2
+  r := r.addCover (cs.cover p)
+  if c1b then r := r.addCover "boundary-dropRatio=0"
+  if c3b ∧ p.draws then r := r.addCover "boundary-draw=ratio"
+  if totalFailure (st.b.history st.now) then r := r.addCover "state-total-failure"
+  match parseState l.obs with
+  | none => return (r.mismatch sec l.idx "unparsable-state" impl, { st with b := chosen.2.1 }, p)
+  | some ist =>
+    let rejected := cs.implRejected l.obs
+    match cs.check rejected l.obs (bucketDelta ist.w st.mw) with
+    | some msg => r := r.violation sec l.idx msg
+    | none => pure ()
+    let (r', ghost) := monitorVerdict r sec l.idx st u rejected ist.lp
+    let st1 := match cs.expected rejected with
+      | some m => st.record m
+      | none => st
+    return (checkWindow r' sec l.idx st1 ist, { st1 with b := chosen.2.1, ghost := ghost }.observe ist, p)
+
+def obsCallObs (obs : List String) (delta : Option Bucket) : CallObs :=
+  { reqRuns := kvNat obs "req" 99, fbRuns := kvNat obs "fb" 99,
+    ret := (parseRet (kvStr obs "ret")).getD .nil, panicked := kvStr obs "panic" ≠ "0",
+    marks := delta.getD ⟨99, 0, 0, 0⟩ }
+
+def doSpec (e : Entry) (o : Outcome) (es os : String) : CallSpec :=
+  { modelStr := fun p => callStr (doReqEvents p.verdict e o) p.draws
+    marks := fun p => marksOf (doReqEvents p.verdict e o)
+    implRejected := fun obs => kvNat obs "req" 99 = 0
+    check := fun rejected obs delta =>
+      let c := obsCallObs obs delta
+      let impl := joinSp obs
+      if rejected then
+        if ¬ rejectedOk e c then some s!"rejected call not accounted exactly: [{impl}]"
+        else if e.hasFallback ∧ kvStr obs "fbarg" ≠ "unavail" then some s!"fallback did not receive ErrServiceUnavailable: [{impl}]"
+        else none
+      else
+        if ¬ admittedOk e o c ∨ (o ≠ .panic ∧ (parseRet (kvStr obs "ret")).isNone) then
+          some s!"admitted call not accounted exactly ({es} {os}): [{impl}]"
+        else none
+    expected := fun rejected => some (if rejected then .drop else if acceptable e.custom o then .succ else .fail)
+    cover := fun p => s!"path-{repr p}" }
+
+def allowSpec : CallSpec :=
+  { modelStr := fun p => s!"v={if p.verdict = .pass then "pass" else "reject"} drew={b01 p.draws}"
+    marks := fun p => marksOf (allowEvents p.verdict)
+    implRejected := fun obs => kvStr obs "v" ≠ "pass"
+    check := fun rejected obs delta =>
+      let v := kvStr obs "v"
+      let want : Bucket := if rejected then { sum := 1, drop := 1 } else {}
+      if delta ≠ some want ∨ (v ≠ "pass" ∧ v ≠ "reject") then some s!"Allow not accounted exactly: [{joinSp obs}]" else none
+    expected := fun rejected => if rejected then some .drop else none
+    cover := fun p => s!"allow-{repr p}" }
+
+/-- the mark an admitted request must leave at a site: by the site's predicate; a panic is a failure except at
+`rest`, where the deferred function looks only at the recorded status code -/
+def siteAdmitMark (s : Site) (q : SiteReq) : Mark :=
+  if s ≠ .rest ∧ q.panics then .fail else if s.pred q then .succ else .fail
+
+def siteSpec (s : Site) (q : SiteReq) (ss cls : String) : CallSpec :=
+  { modelStr := fun p => siteCallStr (siteEvents s p.verdict q) p.draws
+    marks := fun p => smarksOf (siteEvents s p.verdict q)
+    implRejected := fun obs => kvNat obs "req" 99 = 0
+    check := fun rejected obs delta =>
+      let impl := joinSp obs
+      let ret := kvStr obs "ret"
+      let pn := kvStr obs "panic"
+      if rejected then
+        if delta ≠ some { sum := 1, drop := 1 } ∨ ret ≠ siteRetStr s.rejectRet ∨ pn ≠ "0" then
+          some s!"site {ss}: rejected request not accounted exactly (one drop, request not run, {siteRetStr s.rejectRet}): [{impl}]"
+        else none
+      else
+        let m := siteAdmitMark s q
+        let want : Bucket := if m = .succ then { sum := 1, succ := 1 } else { sum := 1, fail := 1 }
+        let wantRet := if q.panics then "none" else siteRetStr (s.admitRet q)
+        if kvNat obs "req" 99 ≠ 1 ∨ delta ≠ some want ∨ ret ≠ wantRet ∨ pn ≠ b01 q.panics then
+          some s!"site {ss} {cls}: admitted request not resolved exactly once as {if m = .succ then "Accept" else "Reject"} by the site's predicate: [{impl}]"
+        else none
+    expected := fun rejected => some (if rejected then .drop else siteAdmitMark s q)
+    cover := fun p => s!"site-{ss}-{if p.verdict = .reject then "rejected" else if siteAdmitMark s q = .succ then "accept" else "reject-mark"}" }
+
+/-- a call that never reaches `accept()`: done context, or a command the site passes around the breaker -/
+def runUntouched (sec : Nat) (r : Report) (l : Line) (st : DState) (model : String) (what : String)
+    (ok : List String → Bool) : Report × DState := Id.run do
+  let mut r := r
+  let impl := joinSp l.obs
+  let model := model ++ " " ++ stateStr st.b st.now
+  if model ≠ impl then r := r.mismatch sec l.idx model impl
+  match parseState l.obs with
+  | none => return (r.mismatch sec l.idx "unparsable-state" impl, st)
+  | some ist =>
+    if bucketDelta ist.w st.mw ≠ some {} ∨ ¬ ok l.obs then
+      r := r.violation sec l.idx s!"{what}: [{impl}]"
+    r := checkWindow r sec l.idx st ist
+    return (r, st.observe ist)
+
+/-! ## concurrent phase -/
+
+/-- `par g=<G> k=<K> mix=<seed> u=<m>`: G goroutines make K calls each on the one breaker while the clock stands
+still.  The split admitted/rejected depends on the schedule and is taken from the observation; everything the
+property says is checked on it: every call accounted exactly once, no lost update, rejections only over threshold. -/
+def runPar (sec : Nat) (r : Report) (l : Line) (st : DState) : Report × DState := Id.run do
+  let mut r := r
+  let impl := joinSp l.obs
+  let g := kvNat l.op "g" 0
+  let k := kvNat l.op "k" 0
+  let calls := kvNat l.obs "calls" 0
+  let ns := kvNat l.obs "succ" 0
+  let nf := kvNat l.obs "fail" 0
+  let nr := kvNat l.obs "rej" 0
+  let bad := kvNat l.obs "bad" 1
+  r := r.addCover "par"
+  if nr > 0 then r := r.addCover "par-with-rejections"
+  if nr > 0 ∧ ns + nf > 0 then r := r.addCover "par-mixed-verdicts"
+  let ms := List.replicate ns Mark.succ ++ List.replicate nf Mark.fail ++ List.replicate nr Mark.drop
+  match parseState l.obs with
+  | none => return (r.mismatch sec l.idx "unparsable-state" impl, st)
+  | some ist =>
+    let b1 := st.b.applyMarks st.now ms
+    let b2 : Breaker := if ist.lp = st.now then { b1 with lastPass := st.now } else b1
+    let model := s!"calls={g * k} succ={ns} fail={nf} rej={nr} bad=0 " ++ stateStr b2 st.now
+    if model ≠ impl then r := r.mismatch sec l.idx model impl
+    if bad ≠ 0 ∨ calls ≠ g * k ∨ ns + nf + nr ≠ calls then
+      r := r.violation sec l.idx s!"concurrent phase: calls not accounted exactly once by their callers: [{impl}]"
+    if bucketDelta ist.w st.mw ≠ some ⟨calls, ns, nf, nr⟩ then
+      r := r.violation sec l.idx s!"concurrent phase: window grew by {bucketStr ((bucketDelta ist.w st.mw).getD {})} but the {calls} calls made were {ns} successes, {nf} failures, {nr} rejections (lost or duplicated update)"
+    -- a rejection needs a snapshot over the threshold: non-accepted never exceeds its final value, accepted never
+    -- goes below its initial value while the clock stands still
+    let hi : WinRes := { st.mh with total := st.mh.total + calls - ns }
+    if nr > 0 ∧ ¬ overThreshold hi then
+      r := r.violation sec l.idx s!"concurrent phase: {nr} rejections although non-accepted <= 5 + 10% of accepted throughout: start total={st.mh.total} accepts={st.mh.accepts} calls={calls}"
+    if nr > 0 ∧ probeDue st.ghost st.now ∧ ns + nf = 0 then
+      r := r.violation sec l.idx s!"concurrent phase: every call rejected more than 1s after the previous throttled admission (at {st.ghost.getD 0}, now {st.now})"
+    if ist.lp ≠ st.b.lastPass ∧ ist.lp ≠ st.now then
+      r := r.violation sec l.idx s!"concurrent phase: lastPass moved to {ist.lp}, not to the time of the phase {st.now}"
+    let st1 := ms.foldl (fun s m => s.record m) st
+    let ghost := if ist.lp = st.now then some st.now else st.ghost
+    return (checkWindow r sec l.idx st1 ist, { st1 with b := b2, ghost := ghost }.observe ist)
+
+/-! ## one line of a breaker section -/
+
 def runLine (sec : Nat) (acc : Report × DState) (l : Line) : Report × DState := Id.run do
   let (r0, st) := acc
   let mut r := { r0 with ops := r0.ops + 1 }
@@ -211,103 +437,203 @@ def runLine (sec : Nat) (acc : Report × DState) (l : Line) : Report × DState :
       let u : Rat := (m : Rat) / (twoPow53 : Rat)
       r := r.addCover s!"do-{es}-{os}"
       if ctx = .done then
-        let model := callStr ctxDoneEvents false ++ " " ++ stateStr st.b st.now
         r := r.addCover "ctx-done"
-        if model ≠ impl then r := r.mismatch sec l.idx model impl
-        match parseState l.obs with
-        | none => return (r.mismatch sec l.idx "unparsable-state" impl, st)
-        | some ist =>
-          let c : CallObs := { reqRuns := kvNat l.obs "req" 99, fbRuns := kvNat l.obs "fb" 99,
-                               ret := (parseRet (kvStr l.obs "ret")).getD .nil, panicked := kvStr l.obs "panic" ≠ "0",
-                               marks := (bucketDelta ist.w st.mw).getD ⟨99, 0, 0, 0⟩ }
-          if ¬ ctxDoneOk c then r := r.violation sec l.idx s!"call with a done context: [{impl}]"
-          r := checkWindow r sec l.idx st ist
-          return (r, st.observe ist)
+        return runUntouched sec r l st (callStr ctxDoneEvents false) "call with a done context"
+          (fun obs => ctxDoneOk (obsCallObs obs (some {})))
       else
         if ctx = .live then r := r.addCover "ctx-live"
-        let (cands, c1b, c3b) := candidates st.b st.now u
-        let run (d : Bool × Bool) : String × Breaker × Path :=
-          let p := acceptPath st.b.lastPass st.now d.1 d.2
-          let evs := doReqEvents p.verdict e o
-          let b2 := (st.b.applyPath st.now p).applyMarks st.now (marksOf evs)
-          (callStr evs p.draws ++ " " ++ stateStr b2 st.now, b2, p)
-        let results := cands.map run
-        let chosen := match results.find? (·.1 = impl) with
-          | some x => x
-          | none => results.headD ("", st.b, .free)
-        if chosen.1 ≠ impl then r := r.mismatch sec l.idx chosen.1 impl
-        let p := chosen.2.2
-        r := r.addCover s!"path-{repr p}"
-        if c1b then r := r.addCover "boundary-dropRatio=0"
-        if c3b ∧ p.draws then r := r.addCover "boundary-draw=ratio"
-        if totalFailure (st.b.history st.now) then r := r.addCover "state-total-failure"
-        match parseState l.obs with
-        | none => return (r.mismatch sec l.idx "unparsable-state" impl, { st with b := chosen.2.1 })
-        | some ist =>
-          let c : CallObs := { reqRuns := kvNat l.obs "req" 99, fbRuns := kvNat l.obs "fb" 99,
-                               ret := (parseRet (kvStr l.obs "ret")).getD .nil, panicked := kvStr l.obs "panic" ≠ "0",
-                               marks := (bucketDelta ist.w st.mw).getD ⟨99, 0, 0, 0⟩ }
-          let rejected := c.reqRuns = 0
-          if rejected then
-            if ¬ rejectedOk e c then r := r.violation sec l.idx s!"rejected call not accounted exactly: [{impl}]"
-            if e.hasFallback ∧ kvStr l.obs "fbarg" ≠ "unavail" then
-              r := r.violation sec l.idx s!"fallback did not receive ErrServiceUnavailable: [{impl}]"
-          else
-            if ¬ admittedOk e o c ∨ (o ≠ .panic ∧ (parseRet (kvStr l.obs "ret")).isNone) then
-              r := r.violation sec l.idx s!"admitted call not accounted exactly ({es} {os}): [{impl}]"
-          let (r', ghost) := monitorVerdict r sec l.idx st u rejected ist.lp
-          let st1 := st.record (if rejected then .drop else if acceptable e.custom o then .succ else .fail)
-          return (checkWindow r' sec l.idx st1 ist, { st1 with b := chosen.2.1, ghost := ghost }.observe ist)
+        let (r', st', _) := runCall sec r l st u (doSpec e o es os)
+        return (r', st')
     | _, _, _, _ => return bad r
   | ["allow", cs, us] =>
     match parseCtx (kvStr [cs] "ctx"), (kvStr [us] "u").toNat? with
     | some ctx, some m =>
       let u : Rat := (m : Rat) / (twoPow53 : Rat)
       if ctx = .done then
-        let model := "v=ctx drew=0 " ++ stateStr st.b st.now
         r := r.addCover "allow-ctx-done"
-        if model ≠ impl then r := r.mismatch sec l.idx model impl
-        match parseState l.obs with
-        | none => return (r.mismatch sec l.idx "unparsable-state" impl, { st with allows := st.allows.push false })
-        | some ist =>
-          if bucketDelta ist.w st.mw ≠ some {} ∨ kvStr l.obs "v" ≠ "ctx" then
-            r := r.violation sec l.idx s!"AllowCtx with a done context: [{impl}]"
-          r := checkWindow r sec l.idx st ist
-          return (r, { st with allows := st.allows.push false }.observe ist)
+        let (r', st') := runUntouched sec r l st "v=ctx drew=0" "AllowCtx with a done context" (fun obs => kvStr obs "v" = "ctx")
+        return (r', { st' with allows := st'.allows.push false })
       else
-        let (cands, c1b, c3b) := candidates st.b st.now u
-        let run (d : Bool × Bool) : String × Breaker × Path :=
-          let p := acceptPath st.b.lastPass st.now d.1 d.2
-          let evs := allowEvents p.verdict
-          let b2 := (st.b.applyPath st.now p).applyMarks st.now (marksOf evs)
-          (s!"v={if p.verdict = .pass then "pass" else "reject"} drew={b01 p.draws} " ++ stateStr b2 st.now, b2, p)
-        let results := cands.map run
-        let chosen := match results.find? (·.1 = impl) with
-          | some x => x
-          | none => results.headD ("", st.b, .free)
-        if chosen.1 ≠ impl then r := r.mismatch sec l.idx chosen.1 impl
-        let p := chosen.2.2
-        r := r.addCover s!"allow-{repr p}"
-        if c1b then r := r.addCover "boundary-dropRatio=0"
-        if c3b ∧ p.draws then r := r.addCover "boundary-draw=ratio"
-        match parseState l.obs with
-        | none => return (r.mismatch sec l.idx "unparsable-state" impl, { st with b := chosen.2.1, allows := st.allows.push false })
-        | some ist =>
-          let v := kvStr l.obs "v"
-          let rejected := v ≠ "pass"
-          let want : Bucket := if rejected then { sum := 1, drop := 1 } else {}
-          if bucketDelta ist.w st.mw ≠ some want ∨ (v ≠ "pass" ∧ v ≠ "reject") then
-            r := r.violation sec l.idx s!"Allow not accounted exactly: [{impl}]"
-          let (r', ghost) := monitorVerdict r sec l.idx st u rejected ist.lp
-          let st1 := if rejected then st.record .drop else st
-          return (checkWindow r' sec l.idx st1 ist,
-            { st1 with b := chosen.2.1, allows := st.allows.push (decide (p.verdict = Verdict.pass)), ghost := ghost }.observe ist)
+        let (r', st', p) := runCall sec r l st u allowSpec
+        return (r', { st' with allows := st'.allows.push (decide (p.verdict = Verdict.pass)) })
     | _, _ => return bad r
+  | "site" :: ss :: cls :: ps :: sfs :: uas :: igs :: cs :: us :: _ =>
+    match parseSite ss, parseCtx (kvStr [cs] "ctx"), (kvStr [us] "u").toNat? with
+    | some s, some ctx, some m =>
+      match parseSiteReq s cls (kvStr [ps] "p") (kvStr [sfs] "sf") (kvStr [uas] "ua") with
+      | none => return bad r
+      | some q =>
+        let u : Rat := (m : Rat) / (twoPow53 : Rat)
+        r := r.addCover s!"site-{ss}"
+        r := r.addCover s!"site-{ss}-class-{cls}"
+        if q.panics then r := r.addCover s!"site-{ss}-panic"
+        if s = .redisProcess ∧ kvStr [igs] "ig" = "1" then
+          -- ProcessHook passes `blpop` around the breaker: the request runs, nothing is consulted or recorded
+          r := r.addCover "site-rproc-ignored-cmd"
+          let model := if q.panics then "req=1 ret=none panic=1 drew=0" else "req=1 ret=same panic=0 drew=0"
+          return runUntouched sec r l st model "command that bypasses the breaker" (fun obs => kvNat obs "req" 99 = 1)
+        else if ctx = .done ∧ s.usesCtx then
+          r := r.addCover s!"site-{ss}-ctx-done"
+          return runUntouched sec r l st "req=0 ret=ctx panic=0 drew=0" s!"site {ss} with a done context"
+            (fun obs => kvNat obs "req" 99 = 0 ∧ kvStr obs "ret" = "ctx" ∧ kvStr obs "panic" = "0")
+        else
+          let (r', st', _) := runCall sec r l st u (siteSpec s q ss cls)
+          return (r', st')
+    | _, _, _ => return bad r
+  | "par" :: _ => return runPar sec r l st
   | _ => return bad r
+
+/-! ## sections with one breaker per name (core/breaker/breakers.go) -/
+
+structure NState where
+  now : Nat
+  names : List (String × DState) := []
+
+def NState.find (ns : NState) (name : String) : Option DState := (ns.names.find? (·.1 = name)).map (·.2)
+
+def NState.set (ns : NState) (name : String) (st : DState) : NState :=
+  if ns.names.any (·.1 = name) then { ns with names := ns.names.map fun p => if p.1 = name then (name, st) else p }
+  else { ns with names := ns.names ++ [(name, st)] }
+
+/-- split `a <state> | b <state>` -/
+def splitBar (toks : List String) : List (List String) :=
+  let rec go (cur : List String) (acc : List (List String)) : List String → List (List String)
+    | [] => (cur.reverse :: acc).reverse
+    | "|" :: rest => go [] (cur.reverse :: acc) rest
+    | t :: rest => go (t :: cur) acc rest
+  go [] [] toks
+
+def runNamedLine (sec : Nat) (acc : Report × NState) (l : Line) : Report × NState := Id.run do
+  let (r0, ns) := acc
+  let mut r := r0
+  match l.op with
+  | ["t+", dts] =>
+    match dts.toNat? with
+    | none => return ({ r with ops := r.ops + 1 }.mismatch sec l.idx "bad-op" (joinSp l.op), ns)
+    | some dt =>
+      let now := ns.now + dt
+      if ns.names.isEmpty then
+        r := { r with ops := r.ops + 1 }
+        if l.obs ≠ ["ok"] then r := r.mismatch sec l.idx "ok" (joinSp l.obs)
+        return (r, { ns with now := now })
+      let parts := splitBar l.obs
+      if parts.length ≠ ns.names.length then
+        return ({ r with ops := r.ops + 1 }.mismatch sec l.idx s!"{ns.names.length} breakers" (joinSp l.obs), { ns with now := now })
+      let mut ns' : NState := { ns with now := now }
+      for (p, (name, st)) in parts.zip ns.names do
+        if p.head? ≠ some name then r := r.mismatch sec l.idx name (joinSp p)
+        let (r', st') := runLine sec (r, st) { l with obs := p.drop 1 }
+        r := r'
+        ns' := ns'.set name st'
+      return (r, ns')
+  | _ =>
+    match l.op.getLast? with
+    | none => return ({ r with ops := r.ops + 1 }.mismatch sec l.idx "bad-op" "", ns)
+    | some last =>
+      if ¬ last.startsWith "name=" then
+        return ({ r with ops := r.ops + 1 }.mismatch sec l.idx "bad-op (name= missing)" (joinSp l.op), ns)
+      let name := (last.drop 5).toString
+      -- `GetBreaker(name)` creates the breaker on first use, at the current clock value
+      let st : DState := match ns.find name with
+        | some st => st
+        | none => { b := Breaker.init ns.now, now := ns.now, t0 := ns.now }
+      if (ns.find name).isNone then r := r.addCover "named-breaker-created"
+      let others := ns.names.filter (·.1 ≠ name)
+      let modelOth := others.foldl (fun a p => a + (sumBuckets (p.2.b.rw.visible ns.now)).sum) 0
+      let monOth := others.foldl (fun a p => a + p.2.mw.sum) 0
+      let obs := l.obs.filter fun t => ¬ t.startsWith "oth="
+      let (r', st') := runLine sec (r, st) { l with op := l.op.dropLast, obs := obs }
+      r := r'
+      let implOth := kvNat l.obs "oth" 999999999
+      if implOth ≠ modelOth then r := r.mismatch sec l.idx s!"oth={modelOth}" s!"oth={implOth}"
+      if implOth ≠ monOth then
+        r := r.violation sec l.idx s!"a call on the breaker named {name} changed the window of a breaker with another name: others recorded {monOth} before, {implOth} after"
+      if ¬ others.isEmpty then r := r.addCover "named-call-with-other-breakers"
+      return (r, ns.set name st')
+
+/-! ## sections on a bare RollingWindow of any size / interval -/
+
+structure WState where
+  w : RW
+  now : Nat
+  t0 : Nat
+  log : List (Nat × Mark) := []
+
+def logTotalsG (n : Nat) (log : List (Nat × Mark)) (cur : Nat) : Bucket :=
+  (log.filter fun e => e.1 ≤ cur ∧ cur < e.1 + n).foldl (fun b e => b.add e.2) {}
+
+def wStateStr (w : RW) (now : Nat) : String :=
+  s!"n={(w.visible now).length} w={bucketStr (sumBuckets (w.visible now))}"
+
+def parseMark : String → Option Mark
+  | "succ" => some .succ | "fail" => some .fail | "drop" => some .drop | _ => none
+
+def runWLine (sec : Nat) (acc : Report × WState) (l : Line) : Report × WState := Id.run do
+  let (r0, st) := acc
+  let mut r := { r0 with ops := r0.ops + 1 }
+  let impl := joinSp l.obs
+  let finish (r : Report) (st : WState) (model : String) : Report × WState := Id.run do
+    let mut r := r
+    if model ≠ impl then r := r.mismatch sec l.idx model impl
+    -- monitor: what Reduce shows is what was added in the preceding `size` aligned buckets
+    let cur := bucketIdxD st.w.interval st.t0 st.now
+    let t := logTotalsG st.w.size st.log cur
+    match parse4 (kvStr l.obs "w") with
+    | some (a, b, c, d) =>
+      if (⟨a, b, c, d⟩ : Bucket) ≠ t then
+        r := r.violation sec l.idx s!"rolling window size={st.w.size} interval={st.w.interval} shows {a}/{b}/{c}/{d} but the values added in the preceding {st.w.size} buckets are {bucketStr t}"
+    | none => r := r.mismatch sec l.idx "unparsable-window" impl
+    return (r, st)
+  match l.op with
+  | ["t+", dts] =>
+    match dts.toNat? with
+    | none => return (r.mismatch sec l.idx "bad-op" (joinSp l.op), st)
+    | some dt =>
+      let st' := { st with now := st.now + dt }
+      let q := dt / st.w.interval
+      r := r.addCover (if dt = 0 then "rw-gap=0" else if q = 0 then "rw-gap<interval" else if q < st.w.size then "rw-gap<window"
+        else if q = st.w.size then "rw-gap=window" else "rw-gap>window")
+      return finish r st' (wStateStr st'.w st'.now)
+  | ["add", ms] =>
+    match parseMark ms with
+    | none => return (r.mismatch sec l.idx "bad-op" (joinSp l.op), st)
+    | some m =>
+      let cur := bucketIdxD st.w.interval st.t0 st.now
+      let st' := { st with w := st.w.add st.now m, log := (cur, m) :: st.log.filter fun e => e.1 ≤ cur ∧ cur < e.1 + st.w.size }
+      r := r.addCover "rw-add"
+      return finish r st' (wStateStr st'.w st'.now)
+  | ["dump"] =>
+    let vis := st.w.visible st.now
+    let items := (List.range vis.length).filterMap fun i =>
+      let bk := vis.getD i {}
+      if bk = {} then none else some s!"{i}:{bucketStr bk}"
+    let model := joinSp (s!"n={vis.length}" :: items)
+    if model ≠ impl then r := r.mismatch sec l.idx model impl
+    return (r, st)
+  | _ => return (r.mismatch sec l.idx "bad-op" (joinSp l.op), st)
 
 def runSection (r : Report) (s : Section) : Report :=
   let t0 := kvNat s.cfg "t0" 1
-  (s.lines.foldl (runLine s.idx) (r, { b := Breaker.init t0, now := t0, t0 := t0 })).1
+  match kvStr s.cfg "kind" with
+  | "race" =>
+    -- verdict of the Go race detector over the whole concurrent run (TestVerifC01Conc, built with -race)
+    s.lines.foldl (fun r l =>
+      let r := { r with ops := r.ops + 1 }.addCover "race-detector-verdict"
+      let r := if kvNat l.obs "known-errorwindow" 0 > 0 then r.addCover "race-known-errorWindow.String" else r
+      if l.op ≠ ["races"] then r.mismatch s.idx l.idx "races" (joinSp l.op)
+      else if kvNat l.obs "unknown" 1 ≠ 0 then
+        r.violation s.idx l.idx s!"data race between concurrent calls on one breaker: {kvStr l.obs "first"} ({joinSp l.obs})"
+      else r) r
+  | "named" => (s.lines.foldl (runNamedLine s.idx) (r.addCover "section-named", { now := t0 })).1
+  | "rw" =>
+    let size := kvNat s.cfg "size" 0
+    let iv := kvNat s.cfg "iv" 0
+    if size = 0 ∨ iv = 0 then r.mismatch s.idx 0 "rw section needs size>=1 iv>=1" (joinSp s.cfg)
+    else
+      let r := r.addCover (if size = 1 then "rw-size=1" else if size = 2 then "rw-size=2" else if size = 40 then "rw-size=40" else "rw-size-other")
+      let r := r.addCover (if iv = 1 then "rw-interval=1ns" else "rw-interval>1ns")
+      (s.lines.foldl (runWLine s.idx) (r, { w := RW.init size iv t0, now := t0, t0 := t0 })).1
+  | _ => (s.lines.foldl (runLine s.idx) (r, { b := Breaker.init t0, now := t0, t0 := t0 })).1
 
 def driver (secs : List Section) : Report := secs.foldl runSection {}
 
